@@ -19,6 +19,8 @@ import http.client
 import inspect
 import io
 import itertools
+import logging
+import os
 import queue
 import re
 import threading
@@ -158,7 +160,35 @@ def dsl(tok):
 
 
 # ------------------------------------------------------------------------------------------------ library access
+class _FormatAndDrop(logging.Handler):
+    """formats every record like a real handler would, keeps nothing"""
+    records = 0
+
+    def emit(self, record):
+        try:
+            record.getMessage()
+            _FormatAndDrop.records += 1
+        except Exception:  # noqa: BLE001   (standard handlers swallow formatting errors of %-style records, too)
+            pass
+
+
+def enable_library_logging():
+    """run the library with DEBUG logging enabled: the arguments of log calls (repr of subscriptions, messages, ...) are code that
+    runs inside request handling, sdc11073.loghelper.LoggerAdapter formats eagerly once the level is enabled. Output is discarded."""
+    logging.disable(logging.NOTSET)
+    logging.raiseExceptions = False
+    root = logging.getLogger()
+    if not any(isinstance(h, _FormatAndDrop) for h in root.handlers):
+        for h in root.handlers[:]:
+            root.removeHandler(h)
+        root.addHandler(_FormatAndDrop(level=logging.DEBUG))
+    root.setLevel(logging.DEBUG)
+    for name in ('sdc', 'sdc.device', 'sdc.client', 'sdc.device.subscrMgr', 'sdc.schema_resolver'):
+        logging.getLogger(name).setLevel(logging.DEBUG)
+
+
 def lib():
+    enable_library_logging()
     import sdc11073.definitions_sdc  # noqa: F401
     from sdc11073.httpserver import compression, httpreader, httprequesthandler
     from sdc11073.pysoap import soapclient
@@ -832,6 +862,7 @@ def run(ctx):
     run_headers(ctx, L, B)
     run_bodies(ctx, L, B)
     run_keepalive(ctx, L, B)
+    run_config_histories(ctx, L, B)
     run_end_to_end(ctx, L)
     B.flush()
 
@@ -859,6 +890,18 @@ def _run_case(ctx, L, B, case):
             check_respond_case(ctx, L, None, case['supported'], case.get('chunk', 0), case['header'], unhx(case.get('body', '-')) or b'<x/>')
     elif k == 'request':
         check_request_case(ctx, L, B, case['te'], case['cl'], case['ce'], case['sup'], unhx(case['wire']))
+    elif k == 'config-history':
+        hosts = config_hosts(L)
+        try:
+            for host in hosts:
+                if host.kind == case['host']:
+                    check_config_history(ctx, L, B, host, case['cfg0'], [tuple(o) for o in case['ops']])
+        finally:
+            for host in hosts:
+                try:
+                    host.stop()
+                except Exception:  # noqa: BLE001
+                    pass
     elif k == 'keepalive':
         check_keepalive_sequence(ctx, L, B, [(a, b, unhx(c)) for a, b, c in case['steps']], case['chunk'])
     elif k == 'e2e':
@@ -1063,6 +1106,117 @@ def run_keepalive(ctx, L, B):
                 h = rng.choice(['gzip', 'identity', 'gzip;q=0', None, 'x-lz4, gzip;q=0.5'])
             steps.append((h, rng.choice(sups), gen_body(rng, rng.choice([0, 5, 200]))))
         check_keepalive_sequence(ctx, L, B, steps, rng.choice([0, 0, 3, 512]))
+
+
+# ------------------------------------------------------------------------------------------------ configuration histories
+class ConfigHost:
+    """a running http server of the library together with the public way to change the enabled codings"""
+    def __init__(self, kind, server, path, set_used, stop):
+        self.kind, self.server, self.path, self.set_used, self.stop = kind, server, path, set_used, stop
+
+
+def config_hosts(L):
+    """provider and consumer with their own (real, localhost-bound) http servers, and a bare HttpServerThreadBase"""
+    from sdc11073.consumer.consumerimpl import SdcConsumer
+    from sdc11073.httpserver.httpserverimpl import HttpServerThreadBase
+    from tests.mockstuff import MockWsDiscovery, SomeDevice
+    repo = os.environ.get('VERIF_REPO', '/repo')
+    hosts = []
+    dev = SomeDevice.from_mdib_file(MockWsDiscovery('127.0.0.1'), None, os.path.join(repo, 'tests', '70041_MDIB_Final.xml'))
+    dev.start_all(start_rtsample_loop=False)
+    hosts.append(ConfigHost('provider', dev._http_server.httpd, f'/{dev.path_prefix}/Get', lambda names: dev.set_used_compression(*names),
+                            dev.stop_all))
+    cons = SdcConsumer('http://127.0.0.1:9/none', sdc_definitions=dev.mdib.sdc_definitions, ssl_context_container=None)
+    cons.consumer_ip_address = '127.0.0.1'
+    cons._start_event_sink(None)
+    hosts.append(ConfigHost('consumer', cons._http_server.httpd, f'/{cons.path_prefix}/subscr', lambda names: cons.set_used_compression(*names),
+                            cons._stop_event_sink))
+    live = list(L.CH.available_encodings)
+    thr = HttpServerThreadBase('127.0.0.1', None, live, logger=mock.MagicMock(), chunk_size=3)
+    thr.start()
+    thr.started_evt.wait(10)
+    thr.dispatcher.register_instance('svc', EchoComponent(reply=b'<answer/>'))
+
+    def set_live(names):
+        del live[:]
+        live.extend(names)
+    hosts.append(ConfigHost('http-server-thread', thr.httpd, '/svc/x', set_live, thr.stop))
+    return hosts
+
+
+def check_config_history(ctx, L, B, host, cfg0, ops):
+    """ops = [('set', [names]) | ('req', accept_encoding)] applied to a RUNNING server: every response must follow the codings enabled
+    at that time (set_used_compression after start) and the Accept-Encoding of its request"""
+    case = {'kind': 'config-history', 'host': host.kind, 'cfg0': cfg0, 'ops': [list(o) for o in ops]}
+    host.set_used(cfg0)
+    cfg, got, line = list(cfg0), [], []
+    body = b'<x/>'
+    for op, arg in ops:
+        if op == 'set':
+            host.set_used(arg)
+            cfg = list(arg)
+            line.append('s:' + esl(arg))
+            continue
+        raw = raw_post([('Content-Type', 'application/soap+xml; charset=utf-8'), ('Content-Length', str(len(body)))] +
+                       ([('Accept-Encoding', arg)] if arg is not None else []), body).replace(b'POST /svc ', f'POST {host.path} '.encode(), 1)
+        sock = FakeSock(raw)
+        r = WD.call(L.rh.DispatchingRequestHandler, sock, ('127.0.0.1', 50000), host.server)
+        resps = parse_responses(b''.join(sock.out)) if r[0] == 'ok' else []
+        if not resps or resps[0] is None:
+            ctx.fail('do_POST:' + ('hang' if r[0] == 'hang' else 'no-response'), f'{host.kind}: {r!r:.160}', case)
+            return
+        status, h, payload = resps[0]
+        ce = h.get('content-encoding')
+        got.append(es(ce) if ce is not None else 'none')
+        line.append('r:' + es(arg))
+        ctx.count(f'config-history:{host.kind}:' + ('coded' if ce else 'identity'))
+        if ce is not None:
+            if ce not in cfg:
+                ctx.fail('choice:not-enabled', f'{host.kind}: enabled codings are {cfg} (set while the server is running), the response to '
+                         f'Accept-Encoding {arg!r} is coded with {ce!r}', case)
+            if not declares_acceptable(arg, ce):
+                ctx.fail('choice:q0-coding-chosen', f'{host.kind}: response coded with {ce!r} for Accept-Encoding {arg!r}', case)
+            try:
+                L.CH.decompress_payload(ce, payload)
+            except Exception as ex:  # noqa: BLE001
+                ctx.fail('response:not-decodable', f'{host.kind}: {type(ex).__name__}', case)
+    ctx.case({'k': 'cfg', **case}, nontrivial=any(o == 'set' for o, _ in ops))
+    B.add(f'hist {esl(cfg0)} ' + ' '.join(line), ' '.join(got), 'cfgRun == Content-Encoding of the responses of a running server whose enabled '
+          'codings are changed with set_used_compression', case)
+
+
+def run_config_histories(ctx, L, B):
+    rng = ctx.subrng('config')
+    avail = list(L.CH.available_encodings)
+    lz = [a for a in avail if 'lz4' in a]
+    sups = [avail, ['gzip'], [], lz, ['lz4', 'gzip'], ['gzip'], []]
+    aes = ['x-lz4, gzip;q=0.5', 'gzip', 'x-lz4', 'lz4;q=1.0, x-lz4;q=0.9, gzip;q=0.1', '*', 'gzip;q=0, x-lz4', None, 'identity',
+           'gzip , lz4 ; q = 0.2']
+    hosts = config_hosts(L)
+    try:
+        for host in hosts:
+            # the history of the operator: everything enabled, then only gzip, then nothing, then everything again
+            fixed = [('req', aes[0]), ('set', ['gzip']), ('req', aes[0]), ('req', 'x-lz4'), ('req', aes[3]), ('set', []), ('req', 'gzip'),
+                     ('req', aes[0]), ('req', '*'), ('set', avail), ('req', aes[0]), ('req', 'gzip')]
+            check_config_history(ctx, L, B, host, avail, fixed)
+            for _ in range(ctx.n(12, 120)):
+                ops = []
+                for _ in range(rng.randint(3, 9)):
+                    if rng.random() < 0.35:
+                        ops.append(('set', rng.choice(sups)))
+                    else:
+                        h = rng.choice(aes) if rng.random() < 0.6 else gen_header(rng)
+                        if h is not None and (not q_in_model_domain(h) or any(ord(c) > 255 or c in '\r\n\x00' for c in h)
+                                              or h != h.strip(' \t') or h == ''):
+                            h = rng.choice(aes)
+                        ops.append(('req', h))
+                check_config_history(ctx, L, B, host, rng.choice(sups), ops)
+    finally:
+        for host in hosts:
+            try:
+                host.stop()
+            except Exception:  # noqa: BLE001
+                pass
 
 
 TE_VALUES = [None, 'chunked', 'Chunked', 'CHUNKED', ' chunked', 'chunked ', 'gzip, chunked', 'identity', '', 'chunke']
@@ -1281,6 +1435,8 @@ def search(ctx):
             run_headers(ctx, L, B)
         if not ctx.failures:
             run_keepalive(ctx, L, B)
+        if not ctx.failures:
+            run_config_histories(ctx, L, B)
         if not ctx.failures:
             run_end_to_end(ctx, L)
         if not ctx.failures:
